@@ -91,6 +91,32 @@ fn ref_het(name: &str, bits: u32) -> (u64, u8) {
 fn check_jenkins(s: &str, bits: u32) -> CaseResult {
     let (h, n1) = het_hash(s, bits);
     let (wh, wn1) = ref_het(s, bits);
+    // the clauses that do not depend on the folding direction come first: the listed upper-case deviation
+    // (reported at the end) must not hide them for names with ASCII letters
+    let v = swap_case_slash(s);
+    let (hv, nv) = het_hash(&v, bits);
+    if (hv, nv) != (h, n1) {
+        vfail!("het-hash-not-fold-invariant", "het_hash({:?},{}) != het_hash({:?},{})", s, bits, v, bits);
+    }
+    if jenkins_hash(s) != jenkins_hash(&v) {
+        vfail!("jenkins-hash-not-fold-invariant", "jenkins_hash({:?}) != jenkins_hash({:?})", s, v);
+    }
+    // wrapper used by the extended tables: the same pair as het_hash (MPQ folding touches ASCII letters only)
+    let (fh0, nh0) = wow_mpq::calculate_het_hashes(s, bits as u8);
+    if (fh0, nh0) != (h, n1 as u64) {
+        vfail!(
+            "calculate-het-hashes-differs-from-het-hash",
+            "calculate_het_hashes({:?},{}) = ({:#x},{:#x}) but het_hash gives ({:#x},{:#x}); lookup3 reference ({:#x},{:#x})",
+            s,
+            bits,
+            fh0,
+            nh0,
+            h,
+            n1,
+            wh,
+            wn1
+        );
+    }
     if (h, n1) != (wh, wn1) && (h, n1) == ref_het_folded(s, bits, true) {
         // exactly the upper-case variant: the listed deviation, nothing else
         vfail!(
@@ -518,13 +544,31 @@ fn file_key_behind_prefix(check: &Check) {
                 (format!("Keys\\Dir{}\\file_{i}.bin", i % 3), body, i % 2 == 0, if i % 4 < 2 { wow_mpq::compression::flags::ZLIB } else { 0 })
             })
             .collect();
-        let mut b = wow_mpq::ArchiveBuilder::new().version(version);
+      for crcs in [false, true] {
+        let mut b = wow_mpq::ArchiveBuilder::new().version(version).generate_crcs(crcs);
         for (n, d, fix, m) in &files {
             b = b.add_file_data_with_encryption(d.clone(), n, *m, *fix, 0);
         }
         let r: Result<(), Fail> = (|| {
             vcheck::engine::guard("ArchiveBuilder::build", || b.build(&p))?.map_err(|e| Fail::new("file-key-behind-prefix:build-fails", e.to_string()))?;
             let raw = std::fs::read(&p).map_err(|e| Fail::new("harness:io", e.to_string()))?;
+            // the independent reader decrypts every table and sector with the published key schedule (sector
+            // offset table as ONE block under key-1, checksum entry included) and verifies the checksum sectors
+            if version != wow_mpq::FormatVersion::V4 {
+                let ra = vcheck::oracle::refmpq::parse(&raw).map_err(|e| Fail::new("encrypted-files:reference-cannot-parse-archive", format!("{version:?} crcs {crcs}: {e}")))?;
+                for (n, d, fix, m) in &files {
+                    match ra.extract(n.as_bytes()) {
+                        Ok(g) if g == *d => {}
+                        other => {
+                            return Err(Fail::new(
+                                format!("encrypted-files:reference-extraction-differs:{}", if crcs { "sector-crc" } else { "no-crc" }),
+                                format!("{version:?}, sector checksums {crcs}: {n:?} ({} bytes, method {m:#x}, fix_key {fix}) — reference reader: {}", d.len(), match other { Ok(g) => format!("{} other bytes", g.len()), Err(e) => format!("Err({e})") }),
+                            ))
+                        }
+                    }
+                }
+                check.count(&format!("encrypted-files-read-by-reference:{version:?}:crc{}", crcs as u8), true);
+            }
             for units in [0usize, 1, 3, 64] {
                 let q = dir.path().join(format!("k{units}.mpq"));
                 let mut img = vec![0x5Au8; units * 512];
@@ -550,6 +594,7 @@ fn file_key_behind_prefix(check: &Check) {
         if let Err(f) = r {
             check.fail(&f, json!({"kind": "file_key_behind_prefix", "version": format!("{version:?}")}));
         }
+      }
     }
 }
 
